@@ -380,6 +380,127 @@ theorem type_soundness (chunk : List Col) (n : Nat) (e : KExpr) :
     | err => simp at hE
     | panic => simp at hE
 
+  | like a p iha =>
+    intro T c hT hE
+    simp only [toT, typeOf] at hT
+    simp only [evalK] at hE
+    rcases ha : evalK chunk n a with ⟨ra, ta⟩
+    rw [ha] at hE
+    cases ra with
+    | ok ca =>
+      simp only at hE
+      have hc : c.ty = .bool := by
+        cases ca <;> simp [Col.like] at hE
+        rename_i x
+        cases hk : likeK p x <;> simp [hk, KOut.map] at hE
+        subst hE; rfl
+      cases hta : typeOf (toT (chunk.map Col.ty) a) with
+      | none => simp [hta] at hT
+      | some Ta =>
+        rw [hta] at hT
+        simp only at hT
+        split at hT
+        · cases hT; rw [hc]; rfl
+        · cases hT
+    | err => simp at hE
+    | panic => simp at hE
+  | substring s b c0 ihs ihb ihc =>
+    intro T c hT hE
+    simp only [toT, typeOf] at hT
+    simp only [evalK] at hE
+    rcases hs : evalK chunk n s with ⟨rs, ts⟩
+    rw [hs] at hE
+    cases rs with
+    | ok cs =>
+      rcases hb : evalK chunk n b with ⟨rb, tb⟩
+      rw [hb] at hE
+      cases rb with
+      | ok cb =>
+        rcases hc0 : evalK chunk n c0 with ⟨rc, tc⟩
+        rw [hc0] at hE
+        cases rc with
+        | ok cc =>
+          simp only at hE
+          have hc : c.ty = .str := by
+            cases cs <;> cases cb <;> cases cc <;> simp only [Col.substring] at hE <;> try (cases hE)
+            all_goals (rename_i x w1 y w2 z; cases w1 <;> cases w2 <;> simp only [Col.substring] at hE <;> cases hE; rfl)
+          cases hts : typeOf (toT (chunk.map Col.ty) s) with
+          | none => simp [hts] at hT
+          | some Ts =>
+            cases htb : typeOf (toT (chunk.map Col.ty) b) with
+            | none => simp [hts, htb] at hT
+            | some Tb =>
+              cases htc : typeOf (toT (chunk.map Col.ty) c0) with
+              | none => simp [hts, htb, htc] at hT
+              | some Tc =>
+                rw [hts, htb, htc] at hT
+                simp only at hT
+                split at hT
+                · cases hT; rw [hc]; rfl
+                · cases hT
+        | err => simp at hE
+        | panic => simp at hE
+      | err => simp at hE
+      | panic => simp at hE
+    | err => simp at hE
+    | panic => simp at hE
+  | replace a frm to iha =>
+    intro T c hT hE
+    simp only [toT, typeOf] at hT
+    simp only [evalK] at hE
+    rcases ha : evalK chunk n a with ⟨ra, ta⟩
+    rw [ha] at hE
+    cases ra with
+    | ok ca =>
+      simp only at hE
+      have hc : c.ty = .str := by
+        cases ca <;> simp [Col.replace] at hE
+        subst hE; rfl
+      cases hta : typeOf (toT (chunk.map Col.ty) a) with
+      | none => simp [hta] at hT
+      | some Ta =>
+        rw [hta] at hT
+        simp only at hT
+        split at hT
+        · cases hT; rw [hc]; rfl
+        · cases hT
+    | err => simp at hE
+    | panic => simp at hE
+  | repeat_ s k ihs ihk =>
+    intro T c hT hE
+    simp only [toT, typeOf] at hT
+    simp only [evalK] at hE
+    rcases hs : evalK chunk n s with ⟨rs, ts⟩
+    rw [hs] at hE
+    cases rs with
+    | ok cs =>
+      rcases hk : evalK chunk n k with ⟨rk, tk⟩
+      rw [hk] at hE
+      cases rk with
+      | ok ck =>
+        simp only at hE
+        have hc : c.ty = .str := by
+          cases cs <;> cases ck <;> simp only [Col.repeat_] at hE <;> try (cases hE)
+          rename_i x w y
+          cases w <;> simp only [Col.repeat_] at hE <;> try (cases hE)
+          cases hb : binaryOp (fun s n => KOut.ok (repeatF s n)) x y <;> simp only [hb] at hE <;> cases hE
+          rfl
+        cases hts : typeOf (toT (chunk.map Col.ty) s) with
+        | none => simp [hts] at hT
+        | some Ts =>
+          cases htk : typeOf (toT (chunk.map Col.ty) k) with
+          | none => simp [hts, htk] at hT
+          | some Tk =>
+            rw [hts, htk] at hT
+            simp only at hT
+            split at hT
+            · cases hT; rw [hc]; rfl
+            · cases hT
+      | err => simp at hE
+      | panic => simp at hE
+    | err => simp at hE
+    | panic => simp at hE
+
 example : typeOf (toT [.int .w16, .int .w64] (.arith .add (.col 0) (.col 1))) = some .int64 := by
   decide
 
